@@ -80,6 +80,25 @@ func c13DrainAPIs() {
 func (e *c13Env) setup() {
 	h := http.HandlerFunc(func(w http.ResponseWriter, r *http.Request) {
 		io.Copy(io.Discard, r.Body)
+		// request class "cancelmid": the client of the request under test goes away while this backend call is
+		// in progress - the backend cancels the request's context and answers only when its own client (the
+		// object under test) has dropped the call
+		if tok := r.Header.Get(c13HdrCancel); tok != "" {
+			if f, ok := c13Cancels.Load(tok); ok {
+				f.(func())()
+			}
+			select {
+			case <-r.Context().Done():
+			case <-time.After(50 * time.Millisecond):
+			}
+		}
+		// request class "expire": the backend answers after the request's deadline
+		if r.Header.Get(c13HdrDelay) != "" {
+			select {
+			case <-r.Context().Done():
+			case <-time.After(60 * time.Millisecond):
+			}
+		}
 		switch {
 		case strings.HasPrefix(r.URL.Path, "/introspect"):
 			w.Header().Set("Content-Type", "application/json")
@@ -157,9 +176,22 @@ func c13FreePort() int {
 }
 
 // ---------------------------------------------------------------------------------------- request classes
+// Headers by which a request of the classes "cancelmid" / "expire" tells the harness's backend what to do, and
+// the registry of the cancel functions of the requests in flight.
+const (
+	c13HdrCancel = "X-C13-Cancel"
+	c13HdrDelay  = "X-C13-Delay"
+)
+
+var (
+	c13Cancels   sync.Map // token -> func()
+	c13CancelSeq int64
+	c13CancelMu  sync.Mutex
+)
+
 // The request classes an accepted HTTP object must survive (ConfigSpace!HttpReqs).
 var c13HTTPReqs = append(append([]string{"plain", "body", "basic", "bearer", "stream", "resp", "gz", "preflight", "jsonarr", "respstream"},
-	c13PathReqs...), "signed", "presigned", "signed0", "badsig")
+	c13PathReqs...), "signed", "presigned", "signed0", "badsig", "gone", "cancelmid", "expire")
 
 // Request paths derived from the paths the grammar configures (ConfigSpaceGrammar!PathReqs): anchor /a or
 // /api x variant.
@@ -196,7 +228,11 @@ func c13PathOf(q string) string {
 // c13Ctx builds the context of request class q. The request carries a deadline so that retry/limiter
 // waits stay short.
 func (e *c13Env) c13Ctx(q string) (*context.Context, func()) {
-	std, cancel := stdcontext.WithTimeout(stdcontext.Background(), 150*time.Millisecond)
+	deadline := 150 * time.Millisecond
+	if q == "expire" {
+		deadline = 10 * time.Millisecond
+	}
+	std, cancel := stdcontext.WithTimeout(stdcontext.Background(), deadline)
 	mk := func(method, url string, body io.Reader) *http.Request {
 		r, err := http.NewRequestWithContext(std, method, url, body)
 		if err != nil {
@@ -274,6 +310,25 @@ func (e *c13Env) c13Ctx(q string) (*context.Context, func()) {
 			if i := strings.IndexByte(h, ' '); i > 0 {
 				r.Header.Set("Authorization", h[:i]+" Credential=k//, SignedHeaders=host;;x-nope, Signature=zz")
 			}
+		}
+	case "gone", "cancelmid", "expire":
+		// requests whose context ends while they are served (ConfigSpaceGrammar!CtxReqs)
+		r = mk("GET", "http://svc.example/api/x?y=1", nil)
+		r.Header.Set("X-A", "1")
+		switch q {
+		case "gone": // the client went away before the request is handled
+			cancel()
+		case "cancelmid": // the client goes away while the backend call is in progress (see setup)
+			c13CancelMu.Lock()
+			c13CancelSeq++
+			tok := fmt.Sprintf("%d-%d", os.Getpid(), c13CancelSeq)
+			c13CancelMu.Unlock()
+			inner := cancel
+			c13Cancels.Store(tok, func() { inner() })
+			r.Header.Set(c13HdrCancel, tok)
+			cancel = func() { c13Cancels.Delete(tok); inner() }
+		case "expire": // the deadline expires while the backend call (or a back-off) is in progress
+			r.Header.Set(c13HdrDelay, "1")
 		}
 	default:
 		if p := c13PathOf(q); p != "" {
@@ -464,6 +519,8 @@ func (e *c13Env) drivePipelineYAML(c *c13Cfg, y string, validateOnly bool) {
 // ---------------------------------------------------------------------------------------- resilience policies
 var c13ErrBackend = errors.New("c13 backend failure")
 
+type c13CancelKey struct{}
+
 func (e *c13Env) drivePolicy(c *c13Cfg, raw c13M) {
 	var pol resilience.Policy
 	rec := vx.M{}
@@ -484,8 +541,15 @@ func (e *c13Env) drivePolicy(c *c13Cfg, raw c13M) {
 	if !e.call("create", vx.M{}, func() { w = pol.CreateWrapper() }) {
 		return
 	}
-	var okH, failH, slowH resilience.HandlerFunc
+	var okH, failH, slowH, cancelH resilience.HandlerFunc
 	if !e.call("init", vx.M{}, func() {
+		// a handler during which the caller goes away: it cancels the context it runs under and fails
+		cancelH = w.Wrap(func(ctx stdcontext.Context) error {
+			if f, ok := ctx.Value(c13CancelKey{}).(func()); ok {
+				f()
+			}
+			return c13ErrBackend
+		})
 		okH = w.Wrap(func(stdcontext.Context) error { return nil })
 		failH = w.Wrap(func(stdcontext.Context) error { return c13ErrBackend })
 		slowH = w.Wrap(func(stdcontext.Context) error { time.Sleep(300 * time.Microsecond); return nil })
@@ -527,6 +591,13 @@ func (e *c13Env) drivePolicy(c *c13Cfg, raw c13M) {
 		cancel()
 		failH(ctx)
 		okH(ctx)
+	})
+	e.call("handle", vx.M{"q": "cancelmid", "gen": 1}, func() {
+		for i := 0; i < 2; i++ {
+			ctx, cancel := stdcontext.WithCancel(stdcontext.Background())
+			cancelH(stdcontext.WithValue(ctx, c13CancelKey{}, func() { cancel() }))
+			cancel()
+		}
 	})
 	// recovery: the open state's wait elapses, successful probes close the circuit, failures then fill the
 	// fresh closed-state window and open it again, and the second half-open round is probed as well
@@ -601,6 +672,11 @@ func (e *c13Env) renderPipeline(c *c13Cfg) string {
 		names = []string{"m1"}
 	case "noName":
 		pl["filters"] = c13L{c13M{"kind": "Mock"}}
+	case "lowerKind": // a registered kind in another letter case
+		lm := mock("m1")
+		lm["kind"] = "mock"
+		pl["filters"] = c13L{lm}
+		names = []string{"m1"}
 	default:
 		c13Bad(K, "filters", v)
 	}
@@ -641,6 +717,8 @@ func (e *c13Env) renderPipeline(c *c13Cfg) string {
 		flow = c13L{nil}
 	case "noFilterKey":
 		flow = c13L{c13M{"alias": "x"}}
+	case "lowerEnd": // the built-in END node in another letter case
+		flow = c13L{c13M{"filter": first}, c13M{"filter": "end"}}
 	default:
 		c13Bad(K, "flow", v)
 	}
@@ -964,6 +1042,8 @@ func (e *c13Env) renderHTTPServer(c *c13Cfg) (string, int) {
 		path["methods"] = c13L{"FETCH"}
 	case "dup":
 		path["methods"] = c13L{"GET", "GET"}
+	case "lower": // a valid method in another letter case
+		path["methods"] = c13L{"get"}
 	default:
 		c13Bad(K, "methods", v)
 	}
@@ -1017,7 +1097,7 @@ func (e *c13Env) renderHTTPServer(c *c13Cfg) (string, int) {
 	return c13YAML(hs), port
 }
 
-var c13HSReqs = append([]string{"plain", "body", "hdr", "big", "acme", "host"}, c13PathReqs...)
+var c13HSReqs = append([]string{"plain", "body", "hdr", "big", "acme", "host", "abort"}, c13PathReqs...)
 
 // c13StderrTap redirects os.Stderr (the HTTPServer's error log is built over it) into a buffer so that
 // panics recovered by net/http's per-connection handler ("http: panic serving") are observed.
@@ -1144,6 +1224,19 @@ func (e *c13Env) driveHTTPServer(c *c13Cfg) {
 					r, _ = http.NewRequest("GET", base+"/api/h", nil)
 					r.Host = "svc.example:8080"
 					r.Header.Set("X-A", "1")
+				case "abort":
+					// the client sends the head and a part of the announced body and closes the connection
+					conn, err := net.DialTimeout("tcp", fmt.Sprintf("127.0.0.1:%d", port), time.Second)
+					if err != nil {
+						rec["neterr"] = c13Trunc(err.Error(), 120)
+						return
+					}
+					fmt.Fprintf(conn, "POST /api/x?y=1 HTTP/1.1\r\nHost: svc.example\r\nX-A: 1\r\nX-B: bee\r\nContent-Length: 1000\r\n\r\npartial-body")
+					time.Sleep(time.Millisecond)
+					conn.Close()
+					// the server notices asynchronously: give a panic's log line time to arrive
+					time.Sleep(15 * time.Millisecond)
+					return
 				default:
 					p := c13PathOf(q)
 					if p == "" {
@@ -1282,6 +1375,8 @@ func (e *c13Env) renderMQTTProxy(c *c13Cfg) (string, int) {
 		mp["rules"] = c13L{nil}
 	case "empty":
 		mp["rules"] = c13L{}
+	case "lowerType": // a valid packet type in another letter case
+		mp["rules"] = c13L{c13M{"when": c13M{"packetType": "connect"}, "pipeline": "pl"}}
 	default:
 		c13Bad(K, "rules", v)
 	}
